@@ -1,3 +1,95 @@
 import Econf.KeyFileOps
+import Econf.Writer
+import Econf.Merge
+
+/-!
+  C10 — queries never change the configuration.
+
+  In the model every read-only call is a function from the object to its answer; `queryStep`
+  threads the object through such a call exactly as the API does (the object is an argument
+  and stays the caller's), so that "the object afterwards" is defined for every call of the
+  property's list.  `C10_readonly` is the induction over arbitrary call sequences.
+  What the model cannot exhibit is a getter that writes through a shared pointer (the C
+  functions receive the struct by value but share the entry array): that is what the
+  correspondence run of this property checks on the real library (full dump, line numbers,
+  written bytes before and after every sequence).
+-/
+
 namespace Econf
+
+/-- the read-only calls of the property -/
+inductive Query where
+  | groups
+  | keys (g : Option Str)
+  | getString (g k : Option Str)
+  | getInt32 (g k : Option Str) | getInt64 (g k : Option Str)
+  | getUInt32 (g k : Option Str) | getUInt64 (g k : Option Str)
+  | getBool (g k : Option Str)
+  | getStringDef (g k : Option Str) (d : Option Str)
+  | ext (g k : Option Str)
+  | path
+  | tags
+  | write
+  | mergeBase (other : KeyFile)
+  | mergeOverride (other : KeyFile)
+
+inductive Answer where
+  | strs (r : Except Err (List Str))
+  | str (r : Except Err (Option Str))
+  | int (r : Except Err Int)
+  | nat (r : Except Err Nat)
+  | bool (r : Except Err Bool)
+  | extv (r : Except Err ExtValue)
+  | bytes (b : Str)
+  | tags (d c : Byte)
+  | obj (kf : KeyFile)
+
+def answer (kf : KeyFile) : Query → Answer
+  | .groups => .strs (getGroups kf)
+  | .keys g => .strs (getKeys kf g)
+  | .getString g k => .str (getString kf g k)
+  | .getInt32 g k => .int (getTyped getInt32 kf g k)
+  | .getInt64 g k => .int (getTyped getInt64 kf g k)
+  | .getUInt32 g k => .nat (getTyped getUInt32 kf g k)
+  | .getUInt64 g k => .nat (getTyped getUInt64 kf g k)
+  | .getBool g k => .bool (getTyped getBool kf g k)
+  | .getStringDef g k d => .str (match getString kf g k with
+      | .error .nokey => .ok d
+      | r => r)
+  | .ext g k => .extv (getExt kf g k)
+  | .path => .str (.ok kf.path)
+  | .tags => .tags kf.delim kf.comment
+  | .write => .bytes (writeBytes kf)
+  | .mergeBase o => .obj (mergeFiles kf o)
+  | .mergeOverride o => .obj (mergeFiles o kf)
+
+/-- one read-only call: the object afterwards and the answer -/
+def queryStep (kf : KeyFile) (q : Query) : KeyFile × Answer := (kf, answer kf q)
+
+def runQueries (kf : KeyFile) : List Query → KeyFile × List Answer
+  | [] => (kf, [])
+  | q :: qs => let r := queryStep kf q; let rest := runQueries r.1 qs; (rest.1, r.2 :: rest.2)
+
+/-- no sequence of read-only calls changes the object … -/
+theorem C10_readonly (kf : KeyFile) (qs : List Query) : (runQueries kf qs).1 = kf := by
+  induction qs with
+  | nil => rfl
+  | cons q qs ih => simpa [runQueries, queryStep] using ih
+
+/-- … and therefore every later query, and a later write, gives the same answer as before -/
+theorem C10_later_answers (kf : KeyFile) (qs : List Query) (q : Query) :
+    answer (runQueries kf qs).1 q = answer kf q := by rw [C10_readonly]
+
+theorem C10_later_write (kf : KeyFile) (qs : List Query) :
+    writeBytes (runQueries kf qs).1 = writeBytes kf := by rw [C10_readonly]
+
+/-- the boolean getter decides on a lower-cased copy: its answer for a mixed-case text exists and
+    the stored text is still the mixed-case one (the witness of fixed finding F08) -/
+example :
+    let kf : KeyFile := { entries := [{ group := NONE, key := [0x6b], value := some [0x59, 0x65, 0x73], cb := none, ca := none, line := 1, quotes := false }] }
+    (match getTyped getBool kf none (some [0x6b]) with
+     | .ok b => b
+     | .error _ => false) = true ∧
+    (runQueries kf [.getBool none (some [0x6b])]).1.entries.map (·.value) = [some [0x59, 0x65, 0x73]] := by decide
+
 end Econf
